@@ -124,17 +124,46 @@ class Real:
         return [self.md(j) for j in range(len(self.ids))]
 
 
+NUMTYPES = ["int", "float", "bool", "float64", "float32", "float16", "int64", "int32"]
+
+
+def materialize(o):
+    """case value -> the object handed to job.record: plain floats / failure strings as they are, `{"num": type, "v": x}` as
+    the numeric type a run-function may realistically pass (Python int/float/bool, NumPy scalars)"""
+    if isinstance(o, dict) and "num" in o:
+        import numpy as np
+
+        t, v = o["num"], o["v"]
+        if t == "int":
+            return int(v)
+        if t == "float":
+            return float(v)
+        if t == "bool":
+            return bool(v)
+        return getattr(np, t)(v)
+    return o
+
+
+def plain(o):
+    """the value the model sees (it classifies objectives by value)"""
+    if isinstance(o, dict) and "num" in o:
+        return float(bool(o["v"])) if o["num"] == "bool" else float(o["v"])
+    return o
+
+
 def enc_obj(o):
-    """wire form of an objective / stored metadata value"""
-    if isinstance(o, bool):
-        return o
+    """wire form of an objective (also as stored in the rung metadata): a Number by its value, anything else a failure"""
+    import numpy as np
+
+    if isinstance(o, (bool, np.bool_)):
+        return rat(int(o))
     if isinstance(o, Number):
-        return rat(o)
+        return rat(int(o)) if isinstance(o, (int, np.integer)) else rat(float(o))
     return {"F": str(o)}
 
 
 def enc_md(md):
-    return {k: enc_obj(v) for k, v in md.items()}
+    return {k: (bool(v) if k == "_completed" else enc_obj(v)) for k, v in md.items()}
 
 
 def norm_md(md):
@@ -188,7 +217,8 @@ class Runner:
         R, nobs = self.R, self.nobs
         if j >= len(nobs) or nobs[j] >= len(self.curves[j]):
             raise common.HarnessError(f"bad schedule: job {j} has no step left")
-        o = self.curves[j][nobs[j]]
+        real_o = materialize(self.curves[j][nobs[j]])     # what record() receives
+        o = plain(self.curves[j][nobs[j]])                # its value (what the model and the oracle see)
         self.wire_events.append(["step", j, enc_obj(o)])
         self.events.append(["step", j])
         if self.halted[j]:
@@ -196,7 +226,7 @@ class Runner:
             return
         b = nobs[j] + 1
         nobs[j] += 1
-        e = R.rec(j, b, o)
+        e = R.rec(j, b, real_o)
         if e is not None:
             self.halted[j] = True  # record() raised: the run-function is dead
             md = R.md(j)
@@ -241,7 +271,7 @@ def run_script_real(P, script):
             R.add()
             trace.append({"r": None, "md": None})
         elif ev[0] == "rec":
-            e = R.rec(ev[1], ev[2], ev[3])
+            e = R.rec(ev[1], ev[2], materialize(ev[3]))
             trace.append({"r": e, "md": R.md(ev[1])})
         else:
             d = R.stop(ev[1])
@@ -517,6 +547,19 @@ def curve_families(rng, njobs, length, family):
     elif family == "noisy":
         for j in range(njobs):
             cs.append([grid(rng.uniform(-2, 2)) for _ in range(length)])
+    elif family == "numtypes":   # the numeric types a run-function passes to job.record (the model classifies by value)
+        for j in range(njobs):
+            cur = []
+            for s in range(1, length + 1):
+                ty = rng.choice(NUMTYPES)
+                if ty in ("int", "int64", "int32"):
+                    v = float(rng.randint(-2, 6))
+                elif ty == "bool":
+                    v = float(rng.random() < 0.5)
+                else:
+                    v = grid(rng.uniform(-2, 4))
+                cur.append({"num": ty, "v": v})
+            cs.append(cur)
     elif family == "failures":
         for j in range(njobs):
             base = [grid(rng.uniform(0, 3)) for _ in range(length)]
@@ -531,7 +574,7 @@ def curve_families(rng, njobs, length, family):
     return cs
 
 
-FAMILIES = ["monotone", "dominating", "crossing", "constant", "noisy", "failures"]
+FAMILIES = ["monotone", "dominating", "crossing", "constant", "noisy", "failures", "numtypes"]
 
 
 def gen_params(rng, kind=None, max_steps=None):
@@ -643,6 +686,9 @@ def gen_scripts(rng, count):
                 if j < njobs:
                     b[j] = bj
                 o = grid(rng.uniform(-1, 3)) if rng.random() < 0.88 else "F"
+                if o != "F" and rng.random() < 0.3:
+                    ty = rng.choice(NUMTYPES)
+                    o = {"num": ty, "v": float(int(o)) if ty.startswith("int") else (float(o > 1) if ty == "bool" else o)}
                 script.append(["rec", j, bj, o])
                 if rng.random() < 0.85:
                     script.append(["stop", j])
@@ -781,7 +827,7 @@ def _script_case(ck, P, script, pending):
     for t in trace:
         if isinstance(t["r"], str):
             ck.count("error:" + t["r"])
-    wire = [[e[0]] if e[0] == "add" else ([e[0], e[1], e[2], enc_obj(e[3])] if e[0] == "rec" else [e[0], e[1]]) for e in script]
+    wire = [[e[0]] if e[0] == "add" else ([e[0], e[1], e[2], enc_obj(plain(e[3]))] if e[0] == "rec" else [e[0], e[1]]) for e in script]
     pending.append((case, trace, final, {"op": "script", "P": wire_P(P), "events": wire}))
 
 
@@ -860,15 +906,15 @@ def run(ck):
             for P in key_params + more_params:
                 for (nj, ln) in [(2, 4), (3, 3), (3, 4)]:
                     for fam in FAMILIES:
-                        if P["kind"] in ("const", "idle") and (fam != "failures" or nj > 2):
+                        if P["kind"] in ("const", "idle") and (fam not in ("failures", "numtypes") or nj > 2):
                             continue
                         if (nj, ln) == (3, 4) and (P not in key_params or fam not in ("dominating", "crossing", "failures")):
                             continue
                         ex_plan.append((P, nj, ln, fam, rng.randrange(1 << 30), 12000))
         else:
             for P in key_params + more_params:
-                for fam in ("dominating", "crossing", "failures"):
-                    if P["kind"] in ("const", "idle") and fam != "failures":
+                for fam in ("dominating", "crossing", "failures", "numtypes"):
+                    if P["kind"] in ("const", "idle") and fam not in ("failures", "numtypes"):
                         continue
                     ex_plan.append((P, 2, 4, fam, rng.randrange(1 << 30), 800))
             for P in key_params + more_params[:4]:
